@@ -1,6 +1,6 @@
 #!/bin/bash
 # Real-code demonstrations of the genuine defects found by the contract checks (DESIGN.md §8).
-# usage: demo.sh <xcp-binary> <F1..F14>      exit 0 = behaviour correct, exit 1 = defect shown
+# usage: demo.sh <xcp-binary> <F1..F15>      exit 0 = behaviour correct, exit 1 = defect shown
 X=$1; WHICH=$2
 D=$(mktemp -d /tmp/xcpdemo.XXXXXX); trap 'rm -rf "$D"' EXIT; cd "$D" || exit 2
 case "$WHICH" in
@@ -84,5 +84,10 @@ F14) # --glob: a pattern that matches nothing was dropped silently among valid o
     timeout 120 "$X" -g a missing out >/dev/null 2>&1; rc=$?
     if [ $rc = 0 ] || [ -e out/a ]; then echo "DEFECT F14: 'xcp -g a missing out' exit $rc, out: $(ls out | tr '\n' ' ')(expected a refusal with nothing copied)"; exit 1; fi
     echo "F14 ok (exit $rc)"; exit 0;;
+F15) # --gitignore: a pattern equal to the source directory's own name pruned the whole tree
+    mkdir -p mydir/sub out; echo a > mydir/a; echo b > mydir/sub/b; printf 'mydir\n' > mydir/.gitignore
+    timeout 120 "$X" -r --gitignore mydir out >/dev/null 2>&1; rc=$?
+    if [ $rc = 0 ] && { [ ! -f out/mydir/a ] || [ ! -f out/mydir/sub/b ]; }; then echo "DEFECT F15: exit 0 but nothing of mydir was copied: $(find out | sort | tr '\n' ' ')"; exit 1; fi
+    echo "F15 ok (exit $rc)"; exit 0;;
 *) echo "unknown finding $WHICH"; exit 2;;
 esac
